@@ -701,8 +701,8 @@ Skipping creation of charge-conjugate decay Tree."""
                 return True
 
         for t in cdecays:
-            if _is_not_self_conj(t):
-                ChargeConjugateReplacement(charge_conj_defs=dict_cc_names).visit(t)
+            _is_not_self_conj(t)  # merely issues a warning
+            ChargeConjugateReplacement(charge_conj_defs=dict_cc_names).visit(t)
 
         # ... and add all these charge-conjugate decays to the list of decays!
         self._parsed_decays.extend(cdecays)  # type: ignore[union-attr]
